@@ -26,7 +26,11 @@ def family_structures():
     }
 
 
-def make_world(nchrom, fam, k, recomb_chroms, change_chroms, seed):
+def make_world(nchrom, fam, k, recomb_chroms, change_chroms, seed, change_mode="hom", nested=False):
+    """nested (trios, k = 6): variants 2 and 3 are heterozygous in every member (their own, read-connected phase set)
+    and lie inside the interval in which the child's paternal haplotype recombines; the outer variants 0, 1, 4, 5 are
+    joined by paired reads.  change_mode: the VCF claims 0/1 where the reads say 0/0 ("hom"), 1/1 where the reads
+    say 0/1 ("het"), or both."""
     samples, trios = family_structures()[fam]
     chroms = []
     for ci in range(nchrom):
@@ -42,6 +46,9 @@ def make_world(nchrom, fam, k, recomb_chroms, change_chroms, seed):
                 continue
             # founders: hap0 = all ref, hap1 = all alt  (heterozygous everywhere)
             haps[s][name] = [[0, 1] for _ in range(k)]
+            if nested and any(s == m for _, _, m in trios):
+                # mothers: homozygous reference outside, heterozygous (alt on hap0) at the nested variants
+                haps[s][name] = [[1, 0] if i in (2, 3) else [0, 0] for i in range(k)]
         for s, (f, m) in children.items():
             ent = []
             for i in range(k):
@@ -53,13 +60,22 @@ def make_world(nchrom, fam, k, recomb_chroms, change_chroms, seed):
             haps[s][name] = ent
         for s in samples:
             for h in (0, 1):
-                world["reads"].append({"sample": s, "chrom": name, "hap": h, "segs": [[0, k - 1, 6, 6]], "n": 3})
+                if nested and (s in children or any(s in t for t in trios)):
+                    world["reads"].append({"sample": s, "chrom": name, "hap": h, "segs": [[0, 1, 6, 3], [4, 5, 3, 6]], "n": 3})
+                    world["reads"].append({"sample": s, "chrom": name, "hap": h, "segs": [[2, 3, 6, 6]], "n": 3})
+                else:
+                    world["reads"].append({"sample": s, "chrom": name, "hap": h, "segs": [[0, k - 1, 6, 6]], "n": 3})
     # --distrust-genotypes scenario: the VCF claims 0/1 at the last variant of the chosen chromosomes
     # for the first sample, but every read of that sample carries the reference allele there
     for name in change_chroms:
         s = samples[0] if samples[0] not in children else samples[-1]
-        world["haps"][s][name][k - 1] = [0, 0]
-        world["vcf_gt_override"].setdefault(s, {})[name] = {k - 1: "0/1"}
+        ov = world["vcf_gt_override"].setdefault(s, {}).setdefault(name, {})
+        if change_mode in ("hom", "both"):
+            world["haps"][s][name][k - 1] = [0, 0]
+            ov[k - 1] = "0/1"
+        if change_mode in ("het", "both"):
+            # reads show both alleles at the first variant, the VCF claims 1/1
+            ov[0] = "1/1"
     return world, trios
 
 
@@ -281,6 +297,18 @@ def worlds(tier):
                                     opts["chromosomes"] = chrsel
                                 world, tr = make_world(nchrom, fam, k, recomb, change, seed)
                                 yield {"world": world, "trios": [list(t) for t in tr], "opts": opts, "lists": lists, "families": families, "fam": fam}
+                                if change:
+                                    # genotype changes towards heterozygous (and both directions), both tags
+                                    for mode in ("het", "both") if T else ("het",):
+                                        for tag2 in ("PS", "HP"):
+                                            if T and tag2 != tag:
+                                                continue
+                                            world, tr = make_world(nchrom, fam, 3, recomb, change, seed, change_mode=mode)
+                                            yield {"world": world, "trios": [list(t) for t in tr], "opts": dict(opts, tag=tag2), "lists": lists, "families": families, "fam": fam}
+                                if trios and recomb and not change and nchrom <= 2:
+                                    # a phase set nested inside the recombination interval
+                                    world, tr = make_world(nchrom, fam, 6, recomb, change, seed, nested=True)
+                                    yield {"world": world, "trios": [list(t) for t in tr], "opts": opts, "lists": lists, "families": families, "fam": fam, "nested": True}
                                 if change and not T:
                                     # the same genotype conflict without --distrust-genotypes: nothing may change
                                     yield {"world": world, "trios": [list(t) for t in tr], "opts": {"tag": tag}, "lists": lists, "families": families, "fam": fam}
